@@ -509,7 +509,14 @@ func histories(r *vproto.Rng, n int) {
 	emitHist("inplace", -2, 18, sq, wide)
 	emitHist("inplace", -2, 18, wide, sq)
 	emitHist("reslot", -2, 18, sq, poly(ring{pt(5, 5), pt(9, 5), pt(7, 9)}))
+	emitHist("inplace", -2, 18, &geom.Bounds{Min: pt(0, 0), Max: pt(2, 2)}, &geom.Bounds{Min: pt(3, 3), Max: pt(6, 5)})
+	emitHist("inplace", -2, 18, &geom.Bounds{Min: pt(1, 1), Max: pt(6, 6)}, &geom.Bounds{Min: pt(2, 2), Max: pt(3, 3)})
 	for i := 0; i < n; i++ {
+		if r.Chance(0.12) { // a *Bounds object whose fields are overwritten
+			a, b := gridRing(r, 2, 8, 2), gridRing(r, 2, 16, 2)
+			emitHist("inplace", -4, 18, &geom.Bounds{Min: a[0], Max: pt(a[0].X+a[1].X, a[0].Y+a[1].Y)}, &geom.Bounds{Min: b[0], Max: b[1]})
+			continue
+		}
 		p1 := randPolygon(r, 4, 1)
 		if r.Bool() {
 			p1 = randPolygon(r, 8, 2)
@@ -722,6 +729,90 @@ func receivers(r *vproto.Rng, n int) {
 	}
 }
 
+// receivers against a target that contains a known region: every vertex is drawn from the region (border
+// included), then — in two of three cases — ONE vertex at a random position (any member, first / middle / last)
+// is replaced by a point outside. "Outside exactly when at least one vertex is Outside", position by position.
+func receiversOneOut(r *vproto.Rng, n int) {
+	for i := 0; i < n; i++ {
+		x0, y0 := float64(r.Range(0, 4))/2, float64(r.Range(0, 4))/2
+		x1, y1 := x0+float64(r.Range(4, 10))/2, y0+float64(r.Range(4, 10))/2
+		box := ring{pt(x0, y0), pt(x1, y0), pt(x1, y1), pt(x0, y1)}
+		var pg geom.Geom
+		switch r.Intn(6) {
+		case 0, 1:
+			pg = &geom.Bounds{Min: pt(x0, y0), Max: pt(x1, y1)}
+		case 2:
+			pg = poly(spell(r, box))
+		case 3:
+			pg = geom.MultiPolygon{poly(spell(r, box))}
+		case 4: // two members sharing an edge
+			xm := x0 + 1
+			pg = geom.MultiPolygon{poly(spell(r, ring{pt(x0, y0), pt(xm, y0), pt(xm, y1), pt(x0, y1)})), poly(spell(r, ring{pt(xm, y0), pt(x1, y0), pt(x1, y1), pt(xm, y1)}))}
+		default: // a member far away comes first
+			pg = geom.MultiPolygon{poly(ring{pt(20, 20), pt(21, 20), pt(20, 21)}), poly(spell(r, box))}
+		}
+		in := func() geom.Point {
+			return pt(x0+float64(r.Range(0, int(2*(x1-x0))))/2, y0+float64(r.Range(0, int(2*(y1-y0))))/2)
+		}
+		out := func() geom.Point {
+			p := in()
+			switch r.Intn(4) {
+			case 0:
+				p.X = x0 - float64(r.Range(1, 3))/2
+			case 1:
+				p.X = x1 + float64(r.Range(1, 3))/2
+			case 2:
+				p.Y = y0 - float64(r.Range(1, 3))/2
+			default:
+				p.Y = y1 + float64(r.Range(1, 3))/2
+			}
+			return p
+		}
+		line := func(lo, hi int) []geom.Point {
+			l := make([]geom.Point, r.Range(lo, hi))
+			for k := range l {
+				l[k] = in()
+			}
+			return l
+		}
+		var members [][]geom.Point
+		kind := r.Intn(4)
+		switch kind {
+		case 0, 1:
+			members = [][]geom.Point{line(1, 6)}
+		default:
+			members = make([][]geom.Point, r.Range(1, 4))
+			for k := range members {
+				members[k] = line(1, 5)
+			}
+		}
+		tag := "allin"
+		if r.Chance(0.67) {
+			m := members[r.Intn(len(members))]
+			m[r.Intn(len(m))] = out()
+			tag = "oneout"
+		}
+		switch kind {
+		case 0:
+			emitRecv(tag, geom.MultiPoint(members[0]), pg)
+		case 1:
+			emitRecv(tag, geom.LineString(members[0]), pg)
+		case 2:
+			m := make(geom.MultiLineString, len(members))
+			for k := range members {
+				m[k] = members[k]
+			}
+			emitRecv(tag, m, pg)
+		default:
+			m := make(geom.Polygon, len(members))
+			for k := range members {
+				m[k] = members[k]
+			}
+			emitRecv(tag, m, pg)
+		}
+	}
+}
+
 func gen(seed uint64, tier string) {
 	r := vproto.NewRng(seed)
 	fixedCorpus()
@@ -738,6 +829,7 @@ func gen(seed uint64, tier string) {
 		scaledShapes(r, 6000)
 		floatCases(r, 30000, floatScales)
 		receivers(r, 15000)
+		receiversOneOut(r, 15000)
 		histories(r, 5000)
 		concurrent(r, 40, 40)
 	} else {
@@ -750,6 +842,7 @@ func gen(seed uint64, tier string) {
 		scaledShapes(r, 1200)
 		floatCases(r, 5000, floatScales)
 		receivers(r, 3000)
+		receiversOneOut(r, 3000)
 		histories(r, 800)
 		concurrent(r, 10, 30)
 	}
@@ -921,6 +1014,15 @@ func polysOf(g geom.Geom) []geom.Polygon {
 
 // history runs query / change-in-place / query / change-back / query against ONE polygon object
 func history(flav string, g1, g2 geom.Geom, run func(geom.Polygonal) string) string {
+	if b, ok := g1.(*geom.Bounds); ok { // the same *Bounds object, fields overwritten
+		keep := *b
+		out := run(b)
+		*b = *g2.(*geom.Bounds)
+		out += " " + run(b)
+		*b = keep
+		out += " " + run(b)
+		return out
+	}
 	obj := g1.(geom.Polygonal) // the object under test; g1's arrays are the ones being overwritten
 	var keep geom.Geom         // pristine copy of state 1 (never passed to Within)
 	switch t := g1.(type) {
